@@ -236,6 +236,8 @@ def _merge(run, step, files, src, add, tag, sig):
         # a bucket holds one object per key: listing a file twice means nothing there
         seen = set()
         files = [f for f in files if not (f['key'] in seen or seen.add(f['key']))]
+        # ... and hands its objects over in listing order, which decides the order of messages with equal ids
+        files.sort(key=lambda f: f['key'].encode('utf-8'))
     good = [f for f in files if not f['bad']]
     bad = [f for f in files if f['bad']]
     if src == 'files':
